@@ -5,8 +5,10 @@ package harness
 import (
 	"context"
 	"fmt"
+	"google.golang.org/grpc/status"
 	"io"
 	"net"
+	"net/http"
 	"runtime"
 	"strings"
 	"testing"
@@ -37,8 +39,75 @@ type c02Case struct {
 	// Undecodable: the handler succeeds, but the caller cannot take its response: it receives into a message
 	// of another type (in-process: the copy is refused) - "a response that cannot be decoded is always
 	// reported as an error". WrongKind says which RPC kind is used.
-	Undecodable bool   `json:",omitempty"`
+	Undecodable bool `json:",omitempty"`
+	// Unencodable (HTTP carriers): the handler succeeds with a response that cannot be encoded (a map key that is not
+	// valid UTF-8); WrongKind says which kind of call; Silent: the server's error renderer writes nothing
+	Unencodable bool   `json:",omitempty"`
+	Silent      bool   `json:",omitempty"`
 	WrongKind   string `json:",omitempty"`
+}
+
+// propC02Unencodable: the handler is content, its response cannot be put on the wire: the caller is told of a failure.
+func propC02Unencodable(c c02Case, o *Outcome) *Outcome {
+	o.NonTrivial = true
+	o.class("unencodable-response/kind=%s/silent-renderer=%v", c.WrongKind, c.Silent)
+	bad := func() *pb.Message {
+		return &pb.Message{Count: 7, Headers: map[string][]byte{"bin-key\xff": []byte("v")}}
+	}
+	svc := &Service{
+		Unary: func(ctx context.Context, req *pb.Message) (*pb.Message, error) { return bad(), nil },
+		Stream: func(kind string, stream grpc.ServerStream) error {
+			for stream.RecvMsg(new(pb.Message)) == nil {
+				if !clientStreaming(kind) {
+					break
+				}
+			}
+			// (a handler that does not look at what its send returned)
+			stream.SendMsg(bad())
+			return nil
+		},
+	}
+	copts := carrierOpts{}
+	if c.Silent {
+		copts.HOpts = []httpgrpc.HandlerOption{httpgrpc.ErrorRenderer(func(context.Context, *status.Status, http.ResponseWriter) {})}
+	}
+	car := newCarrier(c.Carrier, newServiceDesc(), svc, copts)
+	defer car.Close()
+	var err error
+	got := 0
+	stall := guard("call", func() {
+		ctx, cancel := context.WithCancel(context.Background())
+		defer cancel()
+		if c.WrongKind == kUnary {
+			err = car.Conn.Invoke(ctx, mUnary, &pb.Message{}, new(pb.Message))
+			return
+		}
+		var cs grpc.ClientStream
+		cs, err = car.Conn.NewStream(ctx, streamDescOf(c.WrongKind), methodOf(c.WrongKind))
+		if err != nil {
+			return
+		}
+		cs.SendMsg(&pb.Message{})
+		cs.CloseSend()
+		for {
+			if err = cs.RecvMsg(new(pb.Message)); err != nil {
+				return
+			}
+			got++
+			if !serverStreaming(c.WrongKind) {
+				err = nil
+				return
+			}
+		}
+	})
+	if stall != "" {
+		return o.failf("%s/%s: %s", c.Carrier, c.WrongKind, firstLine(stall))
+	}
+	o.Observed = map[string]interface{}{"err": errStr(err), "messages": got}
+	if err == nil || err == io.EOF {
+		return o.failf("%s/%s (error renderer writes nothing: %v): the handler's response cannot be encoded (map key that is not valid UTF-8), the caller is told the call succeeded (%d messages, %v)", c.Carrier, c.WrongKind, c.Silent, got, err)
+	}
+	return o
 }
 
 // propC02Undecodable: in-process call whose response cannot be delivered into what the caller supplied.
@@ -348,6 +417,9 @@ func propC02(c c02Case) *Outcome {
 	if c.GC {
 		return propC02GC(c, o)
 	}
+	if c.Unencodable {
+		return propC02Unencodable(c, o)
+	}
 	if c.Undecodable {
 		return propC02Undecodable(c, o)
 	}
@@ -473,6 +545,9 @@ func genC02(t *rapid.T) c02Case {
 			S: genScript(t, scriptGenOpts{MaxMsg: 100, MDKeys: 0, FewOps: true, NoEarly: true, PlainStatus: true, OnlyKinds: []string{kClientStream, kServerStream}})}
 		c.S.HOps = nil
 		return c
+	}
+	if rapid.IntRange(0, 39).Draw(t, "unencodable") == 0 {
+		return c02Case{Carrier: rapid.SampledFrom([]string{cHTTP, cHTTPMux, cHTTPPer}).Draw(t, "uecarrier"), Unencodable: true, WrongKind: rapid.SampledFrom(allKinds).Draw(t, "uekind"), Silent: rapid.Bool().Draw(t, "uesilent")}
 	}
 	if rapid.IntRange(0, 39).Draw(t, "undecodable") == 0 {
 		return c02Case{Carrier: cInproc, Undecodable: true, WrongKind: rapid.SampledFrom(allKinds).Draw(t, "wrongkind")}
